@@ -40,6 +40,23 @@ Theorem C17_erosion_reach_is_overlap k : 1 <= k -> k mod 2 = 1 -> (k - 1) / 2 + 
 Proof. intros A B. destruct (overlap_covers_kernel k A B) as [_ H]. exact H. Qed.
 Print Assumptions C17_block_independent.
 
+(* fuse erodes block by block (border value 0 at the block edge) and samples the result, by nearest re-projection, at every source pixel of
+   the block's output window - on unaligned grids up to one processing pixel beyond it.  With a block overlap of at least erosion reach + 1
+   (what process() uses with partial masking on; the correspondence checks the value it hands to block_pairs) the block result is the
+   whole-image result at every such position; with overlap = reach it is not (the defect repaired by 71fa277). *)
+Theorem C17_seam_sampling_safe H W r0 c0 Hb Wb m kh kw oh ow i j : 1 <= kh -> 1 <= kw -> kh mod 2 = 1 -> kw mod 2 = 1 ->
+  0 <= r0 -> r0 + Hb <= H -> 0 <= c0 -> c0 + Wb <= W ->
+  (kh - 1) / 2 + 1 + 1 <= oh -> (kw - 1) / 2 + 1 + 1 <= ow ->
+  (r0 = 0 \/ r0 + oh - 1 <= i) -> (r0 + Hb = H \/ i <= r0 + Hb - oh) ->
+  (c0 = 0 \/ c0 + ow - 1 <= j) -> (c0 + Wb = W \/ j <= c0 + Wb - ow) ->
+  erode_blk r0 c0 Hb Wb m kh kw i j = erode H W m kh kw i j.
+Proof. exact (seam_sampling_safe H W r0 c0 Hb Wb m kh kw oh ow i j). Qed.
+Print Assumptions C17_seam_sampling_safe.
+Theorem C17_seam_sampling_legacy_refuted :
+  let m := fun _ _ : Z => true in
+  erode_blk 4 0 8 12 m 3 3 5 6 = false /\ erode 12 12 m 3 3 5 6 = true /\ erode_blk 3 0 9 12 m 3 3 5 6 = true.
+Proof. exact seam_sampling_legacy_refuted. Qed.
+
 Example C17_example :
   let m := fun u v => negb ((u =? 2) && (v =? 3)) in
   (erode 7 9 m 1 3 3 4, erode 7 9 m 1 3 4 6, erode 7 9 m 1 3 0 4, erode 7 9 m 3 1 4 3) = (false, true, false, false).
